@@ -386,7 +386,7 @@ fn exec(line: &str) -> (String, Option<String>, bool) {
     let obs = exec_mode(mode, &vs, &events, &mut verdict);
     // the first render closure of the case belongs to `mode`
     if let Some(n) = NODE_COUNTS.with(|c| c.borrow().first().copied()) {
-        let root_of = if mode == "blockdrop" { "block" } else { mode };
+        let root_of = if mode.starts_with("blockdrop") { "block" } else { mode };
         let first = FIRST_COUNT.with(|f| *f.borrow_mut().entry(root_of.to_string()).or_insert(n));
         if n != first {
             verdict.get_or_insert(format!("[ssr-node-count] {n} live reactive nodes at the start of this {mode} render, {first} at the start of the first one on this thread"));
@@ -441,6 +441,50 @@ fn exec_mode(mode: &str, vs: &[AV], events: &[String], verdict_out: &mut Option<
                     match at { Some(k) => format!("done@{k} html={}", enc(&h)), None => "hang".into() }
                 }
                 Err(m) => { verdict = Some(format!("[ssr-panic] blocking render after a cancelled one panicked: {m}")); "panic".into() }
+            }
+        }
+        // the same on ONE executor: the cancelled render's tasks are still queued when the next render starts
+        "blockdrop1" => {
+            let (mut tasks, mut ress) = (vec![], vec![]);
+            collect(&vs, &mut tasks, &mut ress);
+            let full: Vec<String> = tasks.iter().map(|t| format!("c{t}")).chain(ress.iter().map(|r| format!("r{r}"))).collect();
+            let (vs2, ev2) = (vs.clone(), events.clone());
+            let r = catch(move || {
+                let rt = tokio::runtime::Builder::new_current_thread().build().unwrap();
+                let local = tokio::task::LocalSet::new();
+                local.block_on(&rt, async move {
+                    // first render: cancelled after `events`
+                    let (f, mut s) = view_fn(&vs2);
+                    let h = tokio::task::spawn_local(async move { let _ = sycamore::web::render_to_string_await_suspense(f).await; });
+                    drain().await;
+                    for e in ev2.iter() { s.fire(e); drain().await; }
+                    h.abort();
+                    // second render, started at once on the same executor; the first one's senders stay alive
+                    NODE_COUNTS.with(|c| c.borrow_mut().clear());
+                    let (f2, mut s2) = view_fn(&vs2);
+                    let done: Rc<RefCell<Option<String>>> = Default::default();
+                    let d2 = done.clone();
+                    let h2 = tokio::task::spawn_local(async move { *d2.borrow_mut() = Some(sycamore::web::render_to_string_await_suspense(f2).await); });
+                    drain().await;
+                    let mut at = if done.borrow().is_some() { Some(0) } else { None };
+                    for (k, e) in full.iter().enumerate() {
+                        s2.fire(e);
+                        drain().await;
+                        if at.is_none() && done.borrow().is_some() { at = Some(k + 1); }
+                    }
+                    let html = done.borrow_mut().take();
+                    h2.abort();
+                    drop(s);
+                    drain().await;
+                    (at, html.unwrap_or_default())
+                })
+            });
+            match r {
+                Ok((at, h)) => {
+                    if at.is_some() { verdict = key_discipline(&h); }
+                    match at { Some(k) => format!("done@{k} html={}", enc(&h)), None => "hang".into() }
+                }
+                Err(m) => { verdict = Some(format!("[ssr-panic] blocking render after a cancelled one (same executor) panicked: {m}")); "panic".into() }
             }
         }
         "stream" => match render_stream(&vs, &events) {
